@@ -161,6 +161,11 @@ type featDef struct {
 	prov, use string
 	// useDecl holds package-level declarations placed in the user's file.
 	useDecl string
+	// sinks / useSinks are expression lists boxed into a package-level []any
+	// in the provider / user file and referenced from live code, so that the
+	// types' names and field names are present in the regular binary (an
+	// interface conversion, not a reflection API).
+	sinks, useSinks string
 	// provImports/useImports list std imports needed beyond the common set.
 	provImports, useImports []string
 	provNotMain             bool // provider should not be main when avoidable (needs exported API use)
@@ -302,8 +307,26 @@ func expand(tmpl string, fi int, f Feat, q string, pkgIdx int, kind string, mayR
 	for j, p := range f.P {
 		pairs = append(pairs, fmt.Sprintf("@P%d", j), fmt.Sprint(p))
 	}
-	pairs = append(pairs, "@Q", q, "@MK", mk)
+	pairs = append(pairs, "@CFDIR", CtrlFlowDirective(f.P), "@Q", q, "@MK", mk)
 	return strings.NewReplacer(pairs...).Replace(tmpl)
+}
+
+// CtrlFlowDirective renders the parameters of a //garble:controlflow
+// directive from a feature's parameters.
+func CtrlFlowDirective(p []int) string {
+	for len(p) < 4 {
+		p = append(p, 0)
+	}
+	fp := []string{"1", "1", "2", "1", "1", "2", "1", "1", "3", "1"}[p[0]%10]
+	jj := []string{"0", "1", "5", "0", "2", "0", "16", "0", "1", "0"}[p[1]%10]
+	bs := []string{"0", "1", "3", "0", "0", "2", "0", "max", "0", "1"}[p[2]%10]
+	hard := []string{"", "xor", "delegate_table", "xor,delegate_table", "", "", "xor", "", "delegate_table", ""}[p[3]%10]
+	trash := []string{"0", "0", "0", "0", "4", "1", "0", "16", "0", "2"}[p[3]%10]
+	d := "flatten_passes=" + fp + " junk_jumps=" + jj + " block_splits=" + bs + " trash_blocks=" + trash
+	if hard != "" {
+		d += " flatten_hardening=" + hard
+	}
+	return d
 }
 
 // ImportPath returns the import path of package i.
@@ -370,11 +393,20 @@ func Render(s Spec) *Program {
 			}
 			return b.String()
 		}
-		provBody := expand(def.prov, fi, f, "", f.Prov, f.Kind, def.mayRemain, &p.Names, seen)
-		useBody := expand(def.use, fi, f, q, f.Prov, f.Kind, def.mayRemain, &p.Names, seen)
+		provTmpl, useTmpl, useDeclTmpl := def.prov, def.use, def.useDecl
+		if def.sinks != "" {
+			provTmpl += "\nvar Sink@MKw = []any{" + def.sinks + "}\n"
+			useTmpl += "\nemit(sprint(\"sink \", len(@QSink@MKw)))\n"
+		}
+		if def.useSinks != "" {
+			useDeclTmpl += "\nvar sinku@MKw = []any{" + def.useSinks + "}\n"
+			useTmpl += "\nemit(sprint(\"sinku \", len(sinku@MKw)))\n"
+		}
+		provBody := expand(provTmpl, fi, f, "", f.Prov, f.Kind, def.mayRemain, &p.Names, seen)
+		useBody := expand(useTmpl, fi, f, q, f.Prov, f.Kind, def.mayRemain, &p.Names, seen)
 		useFunc := fmt.Sprintf("// %s runs feature %d (%s).\nfunc %s(emit func(string), args []string) {\n%s\n}\n", useFn, fi, f.Kind, useFn, indent(useBody))
-		if def.useDecl != "" {
-			useFunc = expand(def.useDecl, fi, f, q, f.User, f.Kind, def.mayRemain, &p.Names, seen) + "\n" + useFunc
+		if useDeclTmpl != "" {
+			useFunc = expand(useDeclTmpl, fi, f, q, f.User, f.Kind, def.mayRemain, &p.Names, seen) + "\n" + useFunc
 		}
 		provFile := fileName(prov.Dir, fmt.Sprintf("prov_%s.go", strings.ToLower(mk)))
 		p.Names = append(p.Names, NameInfo{Name: fmt.Sprintf("prov_%s.go", strings.ToLower(mk)), Kind: "file", Pkg: f.Prov, Feat: f.Kind})
